@@ -94,12 +94,13 @@ PROPS = {
         'lean_targets': ['Shisui.Props.C10', 'Shisui.Inst.C10'],
         'min_obligations': 5,
         'goexperiment': 'synctest',
-        'runs': [{'name': 'lookup', 'harness': ['lookup'], 'driver': ['lookup']}],
+        'runs': [{'name': 'lookup', 'harness': ['lookup'], 'driver': ['lookup']},
+                 {'name': 'contentlookup', 'harness': ['contentlookup'], 'driver': ['lookup'], 'timeout': 1800}],
         'rule': 'the real lookup (newLookup.run) over a caller-supplied query function, inside a synctest bubble: every query blocks on a gate; '
                 'after each quiescence (synctest.Wait) the PRNG releases one outstanding query, cancels, or does both at once; universes of '
                 '0..64 peers (100..200 in thorough), 0..5 seed nodes or a full table, answers with duplicates, nil entries, the asker, the local '
                 'node, cycles, empty answers and failing peers; the set of newly started queries after every release and the final result must '
-                'equal the model; non-trivial = at least two queries were in flight when the event happened; distinct = distinct event lines',
+                'equal the model; plus the real ContentLookup over networks of 4..7 real protocol instances (chain/tree topologies, 0/1/2 holders, sizes 10..3000): found bytes must be bytes a peer supplied, not-found when nobody holds it, the call returns; non-trivial = at least two queries were in flight when the event happened / every content lookup; distinct = distinct event lines',
         'trusted': ['enode.DistCmp modelled as comparison of XOR distances (Nat)', 'Go select/goroutine scheduling controlled by testing/synctest'],
         'assumptions': ['after a simultaneous release+cancel the order in which the lookup sees them is not controlled: only the monitors apply from there on'],
         'explanation': 'theorems over all schedules and all answer functions (invariant, termination measure, result = closest 16 of seen); '
